@@ -153,7 +153,7 @@ pub fn eval_timeline(c: &ValidCase) -> Outcome {
     o
 }
 
-fn timeline_strategy(_t: Tier) -> BoxedStrategy<ValidCase> {
+pub fn timeline_strategy(_t: Tier) -> BoxedStrategy<ValidCase> {
     let edge = prop_oneof![
         3 => (u32::MAX - 3)..=u32::MAX,
         2 => (1u32 << 31) - 2..(1u32 << 31) + 3,
@@ -380,7 +380,7 @@ fn edge16() -> impl Strategy<Value = u32> {
     prop_oneof![3 => 65533u32..65540, 1 => Just(0u32), 1 => 1u32..300, 1 => any::<u32>()]
 }
 
-fn fields_strategy(_t: Tier) -> BoxedStrategy<FieldCase> {
+pub fn fields_strategy(_t: Tier) -> BoxedStrategy<FieldCase> {
     (
         0u8..2,
         prop_oneof![3 => Just(640u32), 2 => 65533u32..65540, 1 => any::<u32>()],
@@ -497,7 +497,7 @@ pub fn eval_fragnum(c: &FragNum) -> Outcome {
     o
 }
 
-fn fragnum_strategy(_t: Tier) -> BoxedStrategy<FragNum> {
+pub fn fragnum_strategy(_t: Tier) -> BoxedStrategy<FragNum> {
     (
         prop_oneof![Just(0u64), (1u64 << 33)..(1u64 << 34), (1u64 << 40)..(1u64 << 41)],
         vec(prop_oneof![3 => ((1u64 << 32) - 3)..((1u64 << 32) + 3), 2 => Just(3000u64), 1 => 0u64..100000], 1..5),
@@ -565,7 +565,7 @@ pub fn eval_huge(c: &HugeTs) -> Outcome {
     o
 }
 
-fn huge_strategy(_t: Tier) -> BoxedStrategy<HugeTs> {
+pub fn huge_strategy(_t: Tier) -> BoxedStrategy<HugeTs> {
     (prop_oneof![2 => 50u8..56, 2 => 60u8..70, 1 => 70u8..200], any::<u16>(), any::<bool>()).prop_map(|(exp2, frac, audio)| HugeTs { exp2, frac, audio }).boxed()
 }
 
